@@ -6,10 +6,12 @@ flight, at each point either a ready step is popped (while fewer than N run) or 
 A running step may announce an input at run time (amend); when that input is not available or not fresh the step is
 deferred exactly as DirectorHandler.amend_step and the executor do (mark_completed(None, wants_defer=True)) and runs
 again later.  For every world, the final graph (nodes by kind and label with attachment, creator and state, edges,
-which steps hold a hash) and the success of the build must be the same for all schedules and all N.
+which steps hold a hash, the stored and the implied need of every step) and the success of the build must be the same
+for all schedules and all N.
 
 Worlds (plan scripts): a chain with an amended input (X announces A's output), two producers and a joint consumer, an
-optional step needed through an amended input, a step that amends an output."""
+optional step needed through an amended input, a step that amends an output, a planning step that defines a consumer of
+a producer that may already have finished (default and optional producer)."""
 
 from __future__ import annotations
 
@@ -34,6 +36,15 @@ WORLDS = {
     "amended-output": dict(
         steps=[("A", ["s.txt"], [], {}), ("C", ["a2.txt"], ["c.txt"], {})],
         run=dict(A=dict(amend_out=["a2.txt"]))),
+    # a planning step S defines, when it runs, a planning step T that consumes the output of G (default need): G may
+    # or may not have finished by then
+    "late-consumer-with-higher-need": dict(
+        steps=[("G", ["s.txt"], ["cfg.txt"], {}), ("S", [], [], dict(plan=True))],
+        run=dict(S=dict(define=[("T", ["cfg.txt"], ["r.txt"], dict(plan=True))]))),
+    # the same with an optional producer that only the late consumer needs
+    "late-consumer-of-optional": dict(
+        steps=[("G", ["s.txt"], ["cfg.txt"], dict(optional=True)), ("S", ["s.txt"], ["s2.txt"], {})],
+        run=dict(S=dict(define=[("T", ["cfg.txt"], ["r.txt"], {})]))),
 }
 
 
@@ -48,9 +59,12 @@ class World(C09_bounded.World):
         wf, N = self.wf, self.m["enums"].Need
         wf.declare_static_files(plan, ["s.txt"])
         for k, (label, inps, outs, opts) in enumerate(self.world["steps"]):
-            wf.define_step(plan, label, inp_paths=inps, out_paths=outs,
-                           need=N.OPTIONAL if opts.get("optional") else N.DEFAULT,
+            wf.define_step(plan, label, inp_paths=inps, out_paths=outs, need=self.need_of(opts),
                            duration=100.0 if k == self.variant % len(self.world["steps"]) else 1.0)
+
+    def need_of(self, opts):
+        N = self.m["enums"].Need
+        return N.OPTIONAL if opts.get("optional") else N.PLAN if opts.get("plan") else N.DEFAULT
 
     async def pop(self):
         job = await self.scheduler.pop_next_job()
@@ -88,10 +102,13 @@ class World(C09_bounded.World):
             res = {}
 
             def amend():
-                una, unf, to_check = self.wf.amend_step(
-                    step, inp_paths=beh.get("amend_inp", []), out_paths=beh.get("amend_out", []),
-                    ran_concurrently=self.scheduler.ran_concurrently)
-                res["defer"] = bool(una) or bool(unf)
+                for label, inps, outs, opts in beh.get("define", []):
+                    self.wf.define_step(step, label, inp_paths=inps, out_paths=outs, need=self.need_of(opts))
+                if "amend_inp" in beh or "amend_out" in beh:
+                    una, unf, to_check = self.wf.amend_step(
+                        step, inp_paths=beh.get("amend_inp", []), out_paths=beh.get("amend_out", []),
+                        ran_concurrently=self.scheduler.ran_concurrently)
+                    res["defer"] = bool(una) or bool(unf)
 
             try:
                 async with self.db:
@@ -188,7 +205,9 @@ async def _explore(m, world, njobs, variant=0, limit=4000):
                 continue
             async with db:
                 g = C05_bounded.graph(db, m)
-            key = repr((sorted(g["nodes"].items()), sorted(g["edges"]), sorted(g["hashes"])))
+                needs = sorted(db.execute("SELECT node.label, step.need, step._implied_need FROM step JOIN node ON node.i = step.node "
+                                          "WHERE NOT node.detached").fetchall())
+            key = repr((sorted(g["nodes"].items()), sorted(g["edges"]), sorted(g["hashes"]), needs))
             outcomes.setdefault(key, list(map(str, choices)))
     return outcomes
 
@@ -201,10 +220,10 @@ def _one(args):
 
 
 @bounded("all_schedules", props=["C02"],
-         bound="exhaustive: every schedule (which ready step is popped when, which running job completes next) of 4 small "
+         bound="exhaustive: every schedule (which ready step is popped when, which running job completes next) of 6 small "
                "worlds with 1, 2 and 3 jobs in flight and every choice of the step with the longest duration estimate (which the "
                "scheduler dispatches first), including steps that announce inputs and outputs at run time and are "
-               "deferred; the final graph must be the same for all schedules and job counts of a world")
+               "deferred; steps that define further steps when they run; the final graph (nodes, creators, states, edges, hashes held, stored and implied need of every step) must be the same for all schedules and job counts of a world")
 def all_schedules(tier, seed):
     import concurrent.futures
     import multiprocessing
